@@ -18,7 +18,7 @@ EXHAUSTIVE = True
 RULE = (
     'leaves: boundary ints/floats/bools/None/strings, numpy scalars and '
     'arrays, quantities (magnitudes {0, -2.25, nan, inf, 1e-300, 1e300, '
-    '2^53-1, np.float64, 1-D array} x 8 units), Unit objects, a process, a '
+    '2^53-1, np.float64, 1-D array} x 10 units incl. ones whose name starts with nan-), Unit objects, a process, a '
     'function; containers list/tuple/set/str-keyed dict; ALL trees of '
     'depth <= 2 and width <= 2 over the alphabet (thorough: depth 3 over a '
     'reduced alphabet); rejects (object(), complex, bytes, huge int, '
@@ -87,13 +87,14 @@ def leaf_alphabet(reduced=False):
                  ('fg2', units.fg ** 2),
                  ('dimless', units.dimensionless),
                  ('mmol/L/s', units.mmol / units.L / units.s),
-                 ('count', units.count)]
+                 ('count', units.count), ('nm', units.nm),
+                 ('ng/L', units.ng / units.L)]
     for (ml, m), (ul, u) in itertools.product(mags, unit_list):
         if ml == 'arr':
             add(f'q:arr*{ul}', lambda u=u: np.array([1.0, 2.5]) * u)
         else:
             add(f'q:{ml}*{ul}', lambda m=m, u=u: m * u)
-    for (ul, u) in unit_list[:3]:
+    for (ul, u) in unit_list[:3] + unit_list[-2:]:
         add(f'unit:{ul}', lambda u=u: (1 * u).units)
     add('process', lambda: PROC)
     add('function', lambda: a_function)
